@@ -87,6 +87,7 @@ type Event struct {
 	Do       []*Clause
 	Blocking bool
 	Interference bool // other goroutines may run here: escaping memory is havocked
+	In           []string // function globs the event is restricted to (empty: everywhere)
 	File     string
 	Line     int
 	Used     bool
@@ -676,6 +677,8 @@ func (cs *ContractSet) parseFile(file, pkgPath string) error {
 					curEv.Blocking = true
 				case "interference":
 					curEv.Interference = true
+				case "in":
+					curEv.In = append(curEv.In, strings.Fields(rest)...)
 				default:
 					return fmt.Errorf("%s:%d: unknown event clause %q", l.file, l.line, word)
 				}
